@@ -26,10 +26,12 @@ type floatCtx struct {
 	seenPt  map[string]bool
 	seenR   map[string]bool
 	relerr  bool
+	intOf   map[string]string // v-term -> integer term I with: |I| <= 2^53 (and the same for its operands) ==> v == to_real(I)
+	intCond map[string]string
 }
 
 func newFloatCtx() *floatCtx {
-	return &floatCtx{seenPt: map[string]bool{}, seenR: map[string]bool{}}
+	return &floatCtx{seenPt: map[string]bool{}, seenR: map[string]bool{}, intOf: map[string]string{}, intCond: map[string]string{}}
 }
 
 const two53 = "9007199254740992.0"
@@ -128,10 +130,21 @@ func fNeg(v Value) string {
 }
 func fZero(v Value) string { return "(and (= " + fk(v) + " 0) (= " + fv(v) + " 0.0))" }
 
+// nameReal gives a compound real term a short name so that lemma instances stay small.
+func (e *Exec) nameReal(prefix, term string) string {
+	if !strings.ContainsAny(term, " (") || e.quiet > 0 || e.discovery {
+		return term
+	}
+	return e.define(prefix, "Real", term)
+}
+
 // finishRound returns the value for a finite-operand result with exact real x
 func (e *Exec) floatRounded(t types.Type, x string, finc, nanc, pinf, ninf string) Value {
 	k := e.freshConst("fk", "Int")
-	r := e.fl.round(e, x)
+	x = e.nameReal("fx", x)
+	r := e.nameReal("fr", e.fl.round(e, x))
+	finc = e.defineBool(finc)
+	nanc = e.defineBool(nanc)
 	e.axiom(fmt.Sprintf("(and (<= 0 %s) (<= %s 3))", k, k))
 	e.axiom(fmt.Sprintf("(=> %s (= %s 3))", nanc, k))
 	e.axiom(fmt.Sprintf("(=> %s (= %s 1))", pinf, k))
@@ -160,23 +173,36 @@ func (e *Exec) floatBin(op string, a, b Value, t types.Type) Value {
 		nanc := fmt.Sprintf("(or %s %s (and (= %s 1) (= %s %s)) (and (= %s 2) (= %s %s)))", anan, bnan, ak, bk, b2, ak, bk, b1)
 		pinf := fmt.Sprintf("(and (not %s) (or (= %s 1) (= %s %s)))", nanc, ak, bk, b1)
 		ninf := fmt.Sprintf("(and (not %s) (or (= %s 2) (= %s %s)))", nanc, ak, bk, b2)
-		return e.floatRounded(t, x, finc, nanc, pinf, ninf)
+		res := e.floatRounded(t, x, finc, nanc, pinf, ninf)
+		e.intLemma(op, a, b, res)
+		return res
 	case "*":
-		x := "(* " + av + " " + bv + ")"
+		x := e.nameReal("fx", "(* "+av+" "+bv+")")
+		// valid facts of real arithmetic that spare the solver nonlinear reasoning
+		for _, p := range [][2]string{{av, bv}, {bv, av}} {
+			a, b := p[0], p[1]
+			e.axiom(fmt.Sprintf("(=> (and (<= 0.0 %s) (<= %s 1.0) (>= %s 0.0)) (and (<= 0.0 %s) (<= %s %s)))", a, a, b, x, x, b))
+			e.axiom(fmt.Sprintf("(=> (and (<= 0.0 %s) (<= %s 1.0) (<= %s 0.0)) (and (>= 0.0 %s) (>= %s %s)))", a, a, b, x, x, b))
+		}
+		e.axiom(fmt.Sprintf("(=> (and (>= %s 0.0) (>= %s 0.0)) (>= %s 0.0))", av, bv, x))
+		e.axiom(fmt.Sprintf("(=> (or (= %s 0.0) (= %s 0.0)) (= %s 0.0))", av, bv, x))
 		nanc := fmt.Sprintf("(or %s %s (and %s %s) (and %s %s))", anan, bnan, fIsInf(a), fZero(b), fIsInf(b), fZero(a))
 		infc := fmt.Sprintf("(and (not %s) (or %s %s))", nanc, fIsInf(a), fIsInf(b))
 		sgn := fmt.Sprintf("(xor %s %s)", fNeg(a), fNeg(b))
 		pinf := "(and " + infc + " (not " + sgn + "))"
 		ninf := "(and " + infc + " " + sgn + ")"
-		return e.floatRounded(t, x, finc, nanc, pinf, ninf)
+		res := e.floatRounded(t, x, finc, nanc, pinf, ninf)
+		e.intLemma(op, a, b, res)
+		return res
 	case "/":
 		// exact quotient only meaningful for a non-zero divisor
-		q := "(/ " + av + " " + bv + ")"
+		q := e.nameReal("fx", "(/ "+av+" "+bv+")")
 		nanc := fmt.Sprintf("(or %s %s (and %s %s) (and %s %s))", anan, bnan, fIsInf(a), fIsInf(b), fZero(a), fZero(b))
 		sgn := fmt.Sprintf("(xor %s %s)", fNeg(a), fNeg(b))
 		k := e.freshConst("fk", "Int")
-		r := e.fl.round(e, q)
+		r := e.nameReal("fr", e.fl.round(e, q))
 		res := e.freshConst("fdiv", "Real")
+		nanc = e.defineBool(nanc)
 		e.axiom(fmt.Sprintf("(and (<= 0 %s) (<= %s 3))", k, k))
 		e.axiom(fmt.Sprintf("(=> %s (= %s 3))", nanc, k))
 		// inf / finite
@@ -268,11 +294,20 @@ func (e *Exec) intToFloat(t types.Type, n string) Value {
 		e.fl.addPoint(e, "0", x)
 		return Value{T: t, S: []string{"0", x}}
 	}
-	r := e.fl.round(e, x)
+	x = e.nameReal("fx", x)
+	var r string
 	if b, ok := t.Underlying().(*types.Basic); ok && b.Kind() == types.Float32 {
-		r = e.fl.round32(e, x)
+		r = e.nameReal("fr", e.fl.round32(e, x))
+	} else {
+		r = e.nameReal("fr", e.fl.round(e, x))
 	}
 	e.fl.addPoint(e, "0", r)
+	if _, is32 := t.Underlying().(*types.Basic); is32 && t.Underlying().(*types.Basic).Kind() != types.Float32 {
+		cond := fmt.Sprintf("(and (<= (- 9007199254740992) %s) (<= %s 9007199254740992))", n, n)
+		e.axiom(fmt.Sprintf("(=> %s (= %s (to_real %s)))", cond, r, n))
+		e.fl.intOf[r] = n
+		e.fl.intCond[r] = cond
+	}
 	return Value{T: t, S: []string{"0", r}}
 }
 
@@ -298,6 +333,9 @@ func (e *Exec) floatToInt(a Value, bits int, unsigned bool) string {
 		lo, hi = "(- 1.0)", pow2(bits)+".0"
 	}
 	e.axiom(fmt.Sprintf("(=> (and %s (< %s %s) (< %s %s)) (= %s (trunc %s)))", fIsFin(a), lo, fv(a), fv(a), hi, r, fv(a)))
+	// consequences of truncation stated explicitly (mixed int/real reasoning is slow otherwise)
+	e.axiom(fmt.Sprintf("(=> (and %s (< %s %s) (< %s %s) (>= %s 0.0)) (and (<= (to_real %s) %s) (< %s (+ (to_real %s) 1.0)) (>= %s 0)))", fIsFin(a), lo, fv(a), fv(a), hi, fv(a), r, fv(a), fv(a), r, r))
+	e.axiom(fmt.Sprintf("(=> (and %s (< %s %s) (< %s %s) (<= %s 0.0)) (and (>= (to_real %s) %s) (> %s (- (to_real %s) 1.0)) (<= %s 0)))", fIsFin(a), lo, fv(a), fv(a), hi, fv(a), r, fv(a), fv(a), r, r))
 	return r
 }
 
@@ -351,4 +389,29 @@ func (e *Exec) mathCall(name string, args []Value, t types.Type) (Value, bool) {
 		return Value{T: t, S: []string{"3", "0.0"}}, true
 	}
 	return Value{}, false
+}
+
+func (e *Exec) defineBool(term string) string {
+	if !strings.ContainsAny(term, " (") || e.quiet > 0 || e.discovery {
+		return term
+	}
+	return e.define("fb", "Bool", term)
+}
+
+// intLemma: integer-valued operands give an exact integer-valued result (no is_int reasoning needed).
+func (e *Exec) intLemma(op string, a, b, res Value) {
+	if e.discovery || e.quiet > 0 {
+		return
+	}
+	ia, oka := e.fl.intOf[fv(a)]
+	ib, okb := e.fl.intOf[fv(b)]
+	if !oka || !okb {
+		return
+	}
+	i := "(" + op + " " + ia + " " + ib + ")"
+	cond := fmt.Sprintf("(and %s %s (= %s 0) (= %s 0) (<= (- 9007199254740992) %s) (<= %s 9007199254740992))", e.fl.intCond[fv(a)], e.fl.intCond[fv(b)], fk(a), fk(b), i, i)
+	cond = e.defineBool(cond)
+	e.axiom(fmt.Sprintf("(=> %s (and (= %s 0) (= %s (to_real %s))))", cond, fk(res), fv(res), i))
+	e.fl.intOf[fv(res)] = i
+	e.fl.intCond[fv(res)] = cond
 }
